@@ -8,13 +8,14 @@
         M <conn> <type> <no_reply 0|1> <serial> <reply_serial> <nfds> <path> <iface> <member> <error> <dest> <arg>
           (header fields: hex, "-" empty, "~" absent)
      -> CFGERR  |  per C/M item: deliveries "conn:tag,conn:tag" (sorted; "." if none) joined by " | "; FAULT<n> ends the run;
+        then " ## " and the same with the optimiser test frozen as in dbus 1.13.18 (known finding F3),
         then " ## " and the same for the documented semantics (connections keep the unpruned rule list)
    dec  <item> ; ...                  decision level
         r <s|r|o> <allow> <mtype> <path> <iface> <member> <error> <name> <maxfds> <minfds> <eav> <rr> <log> <bcast 0|1|2> <prefix>
         g <name hex> <conn,conn,..>                          registry entry
         q <type> <path> <iface> <member> <error> <dest> <sender> <reply_serial> <nfds> <requested 0|1> <eavesdropping 0|1>
           <receiver ~|n> <sender conn ~|n> <own name hex>
-     -> S <raw><opt><fix> <8 spec bits> R <raw><opt><fix> <8 spec bits> O <raw><opt><fix> <spec> L <len raw> <len opt> <len fix> W <all wf>
+     -> S <raw><opt><fix><f3> <8 spec bits> R <raw><opt><fix><f3> <8 spec bits> O <raw><opt><fix><f3> <spec> L <len raw> <len opt> <len fix> W <all wf>
 *)
 open Model_policy
 
@@ -127,6 +128,7 @@ let scn (toks : string list) : string =
                      | Done (b1, out) -> go mk b1 t (show_deliveries out :: acc)) in
       (* first the daemon's behaviour, then (after " ## ") the documented one (no pruning of the rule list) *)
       String.concat " | " (go create_client_policy (bus_init p) (List.rev !ops) []) ^ " ## " ^
+      String.concat " | " (go (fun p u g a -> optimize_with f3_condition (client_rules p u g a)) (bus_init p) (List.rev !ops) []) ^ " ## " ^
       String.concat " | " (go client_rules (bus_init p) (List.rev !ops) [])
 
 let all_devs = List.init 8 (fun i -> { dv_reply_by_serial = i land 1 <> 0; dv_eavesdrop_lifts_reply = i land 2 <> 0;
@@ -156,7 +158,7 @@ let dec (toks : string list) : string =
       let proposed = Some (n_of_int 1000001) in
       let addressed = if eavesdropping then Some (n_of_int 1000002) else proposed in
       let ownn = bytes_of_hex own in
-      let lists = [rules; optimize rules; optimize_with universal rules] in
+      let lists = [rules; optimize rules; optimize_with universal rules; optimize_with f3_condition rules] in
       let s = String.concat "" (List.map (fun l -> b2s (check_can_send l requested receiver regy m)) lists) in
       let r = String.concat "" (List.map (fun l -> b2s (check_can_receive l regy requested sc addressed proposed m)) lists) in
       let o = String.concat "" (List.map (fun l -> match check_can_own l ownn with Some b -> b2s b | None -> "F") lists) in
